@@ -241,6 +241,7 @@ impl Session {
         if words.contains(&"umbilical") {
             let (high, low) = make_umbilical();
             mem.attach_umbilical(low);
+            verif::set_command_sender(Some(high.to_low_end.clone()));
             umbilical_high = Some(high);
         }
         if !words.contains(&"empty") {
@@ -602,6 +603,7 @@ fn handle(natives: &[(&'static str, NativeFn)], session: &mut Option<Session>, p
     match cmd {
         "new" => {
             *session = None;
+            verif::set_command_sender(None);
             verif::set_schedule(Schedule::Natural);
             verif::reset_counters();
             *session = Some(Session::new(&words[1..])?);
@@ -658,10 +660,10 @@ fn handle(natives: &[(&'static str, NativeFn)], session: &mut Option<Session>, p
             // command <hex command>: queue a debugger command on the umbilical
             let sess = session.as_mut().ok_or("no session")?;
             let c = unhex(words.get(1).ok_or("missing command")?).ok_or("bad hex")?;
-            if let Some(high) = &sess.umbilical_high {
-                let mut dm = DebugMessage::new();
-                dm.insert("command".to_string(), c);
-                high.to_low_end.send(dm).map_err(|_| "low end disappeared")?;
+            let at_step: usize = words.get(2).copied().unwrap_or("0").parse().map_err(|_| "bad step")?;
+            if sess.umbilical_high.is_some() {
+                // command <hex> <k>: available to the evaluator from its k-th loop head on (counted since `new`)
+                verif::script_command(at_step, c);
                 Ok("ok".to_string())
             }
             else {
